@@ -24,7 +24,13 @@ from multiprocessing.pool import ThreadPool
 
 from harness import framework, tlc, c20
 
-CPU_LIMIT = {"quick": 6.0, "thorough": 12.0}
+# CPU seconds (ITIMER_PROF) per input.  L1: beyond it an input is a *suspect* and is aborted; suspects are grouped by
+# (stage, innermost frame of the stage's module) and REPS of each group are re-run alone under L2.  Only an input
+# that does not finish under L2 - or that shares its group with REPS such inputs - is reported as a timeout.  L2 is
+# far above the slowest *bounded* parse seen (65535-entry header tables: ~6 s of CPU on a loaded machine).
+L1 = {"quick": 2.5, "thorough": 4.0}
+L2 = {"quick": 25.0, "thorough": 60.0}
+REPS = {"quick": 1, "thorough": 2}
 FAULTS = (("NarrowExcept", "InvTotal"), ("NoSeek", "InvNoMisclaim"), ("ForeignParser", "InvOwnErrorsOnly"),
           ("HangParser", "InvTotal"), ("HungryParser", "InvTotal"), ("CoffFirst", "InvNoMisclaim"),
           ("HexFirst", "InvNoMisclaim"))
@@ -136,7 +142,7 @@ def execute(ctx, wd, cases, nproc):
     items = list(enumerate(cases))
     # interleave so that expensive bases are spread over the children
     chunks = [items[i::nproc * 4] for i in range(nproc * 4)]
-    jobs = [(wd, k, ctx.seed, CPU_LIMIT[ctx.tier], ch) for k, ch in enumerate(chunks) if ch]
+    jobs = [(wd, k, ctx.seed, L1[ctx.tier], ch) for k, ch in enumerate(chunks) if ch]
     with ThreadPool(nproc) as tp:
         outs = tp.map(run_chunk, jobs)
     results = {}
@@ -144,7 +150,39 @@ def execute(ctx, wd, cases, nproc):
         results.update(o)
     if len(results) != len(cases):
         raise tlc.MachineryError("replayer returned %d results for %d inputs" % (len(results), len(cases)))
-    return [results[i] for i in range(len(cases))]
+    results = [results[i] for i in range(len(cases))]
+    # --- second level: confirm the suspects under the long limit -------------------------------------------
+    groups = {}
+    for i, r in enumerate(results):
+        if r["info"]["kind"] == "timeout":
+            groups.setdefault((r["info"]["stage"], r["info"]["frame"]), []).append(i)
+    ctx.count("suspects_beyond_L1", sum(len(g) for g in groups.values()))
+
+    def rerun(idx):
+        out = run_chunk((wd, 5000 + idx, ctx.seed, L2[ctx.tier], [(idx, cases[idx])]))
+        return idx, out[idx]
+    reps = [i for g in groups.values() for i in g[:REPS[ctx.tier]]]
+    with ThreadPool(nproc) as tp:
+        long_res = dict(tp.map(rerun, reps))
+    todo = []
+    for key, g in groups.items():
+        rr = [long_res[i] for i in g[:REPS[ctx.tier]]]
+        if all(x["info"]["kind"] in ("timeout", "exhaust", "killed") for x in rr):
+            for i in g:
+                results[i]["info"]["confirmed"] = "%d input(s) stopped at the same frame did not finish in %.0f s of CPU" \
+                    % (len(rr), L2[ctx.tier])
+                if i in long_res:
+                    results[i]["info"]["under_L2"] = long_res[i]["info"]["kind"]
+        else:
+            for i in g[:REPS[ctx.tier]]:
+                results[i] = long_res[i]      # slow but bounded: its real outcome
+            todo.extend(g[REPS[ctx.tier]:])    # the group is mixed: every member is judged on its own
+    if todo:
+        with ThreadPool(nproc) as tp:
+            for i, r in tp.map(rerun, todo):
+                results[i] = r
+    ctx.count("timeouts_confirmed_under_L2", len([r for r in results if r["info"]["kind"] == "timeout"]))
+    return results
 
 
 def validate(ctx, wd, bodies, tag):
@@ -193,7 +231,7 @@ def finding_key(info, clause):
     return None
 
 
-def judge(ctx, wd, bases, cases, results, source):
+def judge(ctx, wd, bases, cases, results, source, collector=None):
     byid = dict((b["id"], b) for b in bases)
     bodies, index = [], {}
     which = []
@@ -212,9 +250,10 @@ def judge(ctx, wd, bases, cases, results, source):
         ev = r["ev"]
         end = info.get("result") if info["kind"] == "return" else info["kind"]
         shapes[end] = shapes.get(end, 0) + 1
-        trivial = end == "raw" and all(e.get("e") in ("ElfError", "PEError", "MachOError", "COFFError", "StructureError",
-                                                      "HEXError", "SRECError", "-") for e in ev) and not case["ops"][:1] \
-            or (case["ops"] and case["ops"][0]["k"] == "rand" and case["ops"][0]["c"] in ("bytes", "ascii") and end == "raw")
+        own = ("ElfError", "PEError", "MachOError", "COFFError", "StructureError", "HEXError", "SRECError", "-")
+        plain = end == "raw" and all(e.get("e") in own for e in ev)
+        kind0 = case["ops"][0]["k"] if case["ops"] else "intact"
+        trivial = plain and (kind0 == "intact" or (kind0 == "rand" and case["ops"][0]["c"] in ("bytes", "ascii")))
         ctx.case(key=None if trivial else r["sha"])
         ctx.trace()
         if info["kind"] == "return" and info["logres"] != info["result"]:
@@ -239,6 +278,8 @@ def judge(ctx, wd, bases, cases, results, source):
                 json.dumps(info, sort_keys=True)[:300])
             vk = ctx.extra.setdefault("failing_keys", {})
             vk[key] = vk.get(key, 0) + 1
+            if collector is not None and (key not in collector or (len(case["ops"]), r["len"]) < collector[key][0]):
+                collector[key] = ((len(case["ops"]), r["len"]), case, dict(r, seed=ctx.seed), clause)
             ctx.fail(key, what, {"source": source, "case": case, "seed": ctx.seed, "events": ev, "info": info,
                                  "verdict": v})
     for case, r in list(zip(cases, results))[:2]:
@@ -253,7 +294,7 @@ def contracts(ctx, wd, bases):
     """bind M's environment assumption: each parser alone on every intact base (drift-level clause)"""
     cases = [{"b": b["id"], "ops": [], "truth": b["truth"], "mode": "parser"} for b in bases]
     items = list(enumerate(cases))
-    res = run_chunk((wd, 9000, ctx.seed, CPU_LIMIT[ctx.tier], items))
+    res = run_chunk((wd, 9000, ctx.seed, L2[ctx.tier], items))
     bodies, owner = [], []
     for i, c in enumerate(cases):
         for e in res[i]["parser"]:
@@ -268,64 +309,89 @@ def contracts(ctx, wd, bases):
     ctx.count("parser_contract_calls_validated", len(bodies))
 
 
-def run(ctx):
+def params(ctx):
+    """generator parameters per tier (see the comment at P in specs/Ident.tla)"""
     quick = ctx.tier == "quick"
-    nproc = tlc.NCPU
+    single = {"target": 250 if quick else 0, "bigtarget": 20 if quick else 700, "biglen": 30000, "phase": ctx.seed,
+              "alllen": 500 if quick else 4096, "nflip": 3 if quick else 30, "flipk": 12,
+              "nrand": 3 if quick else 40, "minfaults": 0, "maxfaults": 1}
+    pairs = dict(single, target=7 if quick else 40, bigtarget=3 if quick else 8, alllen=0, nflip=1,
+                 flipk=4 if quick else 12, nrand=1, minfaults=2, maxfaults=2)
+    return single, pairs
+
+
+def campaign(ctx, collector=None, wd=None, bases=None, lap=lambda name: None):
+    """G + T: generate the fault descriptors with TLC, run them on read_program, let TLC judge the chains"""
+    own = wd is None
+    wd = wd or tlc.workdir("c20")
+    if bases is None:
+        bases, _ = c20.load_bases()
+    single, pairs = params(ctx)
+    # single faults: exhaustive over the (strided) fault space, + intact bases + random strings
+    single["sel"] = [0] + [b["id"] for b in bases]
+    cases = generate(ctx, wd, bases, "single", single)
+    lap("G1:generate")
+    results = execute(ctx, wd, cases, tlc.NCPU)
+    lap("G1:execute")
+    judge(ctx, wd, bases, cases, results, "single", collector)
+    lap("G1:validate")
+    ctx.count("inputs_single_fault", len(cases))
+    # sequences of two faults on the bases of a known format, exhaustive over a strided sub-space
+    pairs["sel"] = [b["id"] for b in bases if b["truth"] in c20.FORMATS]
+    cases = generate(ctx, wd, bases, "seq", pairs)
+    lap("G2:generate")
+    results = execute(ctx, wd, cases, tlc.NCPU)
+    lap("G2:execute")
+    judge(ctx, wd, bases, cases, results, "seq", collector)
+    lap("G2:validate")
+    ctx.count("inputs_fault_sequences", len(cases))
+    if own:
+        tlc.cleanup(wd)
+
+
+def run(ctx):
     ctx.rule = ("inputs = intact corpus bases (shipped samples + synthetic valid files of each format), every "
                 "TLC-enumerated single fault on them (truncation length classes; field x value class for every field "
-                "of every described header table; seeded flips), TLC-simulated sequences of 2-3 faults, and random / "
-                "magic-prefixed / record-shaped strings; an input is non-trivial unless it is an undamaged or random "
-                "string that all six parsers reject at once (chain of own errors ending in the raw fallback); "
-                "distinct = distinct input byte strings (sha1)")
+                "of every described header table; seeded flips), TLC-enumerated pairs of such faults over a strided "
+                "sub-space, and random / magic-prefixed / record-shaped strings; an input is non-trivial unless it is an "
+                "intact or purely random string that all six parsers reject at once (chain of own errors ending in "
+                "the raw fallback); distinct = distinct input byte strings (sha1)")
     ctx.assume("the reference truth of an intact base is what readelf / llvm-readobj / objdump -b ihex|srec / file(1) "
                "said at corpus-build time (corpus/ident/truth.txt); it is only used while the sample's sha256 is unchanged")
-    ctx.assume("'no unbounded loop / allocation' is observed as: %.0f s of CPU time per input (ITIMER_PROF), "
-               "RLIMIT_AS = 1 GiB, any MemoryError/RecursionError raised during the call, peak-RSS jump > 300 MB"
-               % CPU_LIMIT[ctx.tier])
+    ctx.assume("'no unbounded loop / allocation' is observed as: an input (or %d input(s) stopped at the same frame after "
+               "%.1f s) does not finish within %.0f s of CPU time (ITIMER_PROF); RLIMIT_AS = 1 GiB; any MemoryError / "
+               "RecursionError raised during the call; peak-RSS jump > 300 MB"
+               % (REPS[ctx.tier], L1[ctx.tier], L2[ctx.tier]))
     ctx.assume("an object returned by a line-oriented parser (HEX/SREC) that was started with the file cursor not at 0 "
                "is not an identification of the given byte string (clause AcceptFromSuffix)")
     wd = tlc.workdir("c20")
     bases, notes = c20.load_bases()
     for n in notes:
         ctx.drift(n)
+    if ctx.replay:
+        # re-execute one recorded case against the current tree and re-validate it with TLC
+        rep = json.load(open(ctx.replay))
+        case = rep["case"]["case"]
+        ctx.seed = rep["case"].get("seed", rep.get("seed", ctx.seed))
+        results = execute(ctx, wd, [case], 1)
+        judge(ctx, wd, bases, [case], results, "replay")
+        print("replayed: %s -> %s" % (c20.describe(case, dict((b["id"], b) for b in bases)),
+                                     json.dumps(results[0]["info"], sort_keys=True)))
+        tlc.cleanup(wd)
+        return
     ctx.note("bases", {"total": len(bases), "with_truth": len([b for b in bases if b["truth"] in c20.FORMATS]),
                        "described_header_fields": sum(len(r["f"]) for b in bases for r in b["regions"])})
     phases = {}
-    t0 = time.time()
+    t0 = [time.time()]
 
     def lap(name):
-        nonlocal t0
-        phases[name] = round(time.time() - t0, 1)
-        t0 = time.time()
+        phases[name] = round(time.time() - t0[0], 1)
+        t0[0] = time.time()
         ctx.note("phase_wall_s", phases)
-    # --- M ------------------------------------------------------------------------------------------
-    model_check(ctx)
+    model_check(ctx)                                  # M
     lap("M")
-    # --- G: single faults, exhaustive over the (strided) fault space ----------------------------------
-    sel = [0] + [b["id"] for b in bases]
-    p1 = {"target": 400 if quick else 0, "phase": ctx.seed, "alllen": 700 if quick else 4096,
-          "nflip": 3 if quick else 40, "flipk": 12, "nrand": 3 if quick else 40, "minfaults": 0, "maxfaults": 1,
-          "sel": sel}
-    cases = generate(ctx, wd, bases, "single", p1)
-    lap("G1:generate")
-    results = execute(ctx, wd, cases, nproc)
-    lap("G1:execute")
-    judge(ctx, wd, bases, cases, results, "single")
-    lap("G1:validate")
-    ctx.count("inputs_single_fault", len(cases))
-    # --- G: sequences of two faults, exhaustive over a strided sub-space (phase from the seed) ------------
-    p2 = dict(p1, target=8 if quick else 50, alllen=0, nflip=1, flipk=4 if quick else 12, nrand=1, minfaults=2,
-              maxfaults=2,
-              sel=[b["id"] for b in bases if b["truth"] in c20.FORMATS])
-    cases = generate(ctx, wd, bases, "seq", p2)
-    lap("G2:generate")
-    results = execute(ctx, wd, cases, nproc)
-    lap("G2:execute")
-    judge(ctx, wd, bases, cases, results, "seq")
-    lap("G2:validate")
-    ctx.count("inputs_fault_sequences", len(cases))
-    # --- T: parser contract of the model ------------------------------------------------------------
-    contracts(ctx, wd, bases)
+    campaign(ctx, None, wd, bases, lap)               # G -> execute -> T
+    contracts(ctx, wd, bases)                         # T: the parser contract the model relies on
     lap("T:contracts")
     ctx.exhaustive = False
     tlc.cleanup(wd)
